@@ -212,10 +212,19 @@ func driveC08(c *driverCtx) error {
 
 func driveC07(c *driverCtx) error {
 	typ := reflect.TypeFor[RRec]()
-	files := readerFiles(c, c.thorough())
+	files := readerFiles(c, true)
 	for fi, rf := range files {
-		if rf.name == "over1MiB" || rf.name == "len3bytes" {
-			continue // bit flips over megabyte payloads add nothing but volume; truncation of those is C08's business
+		if rf.name == "over1MiB" || rf.name == "len3bytes" || (rf.name == "count64" && !c.thorough()) {
+			// bit flips over large payloads add nothing but volume (truncation of those is C08's business); the
+			// intact file must still deliver exactly its records (a block larger than the reader's 1 MiB chunk)
+			if rf.name == "over1MiB" {
+				key := emitOpen(c, "C07", rf)
+				r := readBack(typ, rf.bytes, "bytes", false, -1, nil)
+				ev := readerOutcome(r, nil)
+				ev["op"], ev["cut"] = "rd_cut", len(rf.bytes)
+				c.rec.Emit(key, ev)
+			}
+			continue
 		}
 		f, err := splitContainer(rf.bytes)
 		if err != nil {
